@@ -35,6 +35,7 @@ def known_class(s):
     if "\r\n" in s and ("'" in s or '"' in s): return "K4-unterminated-before-crlf"
     if "\\u" in s and "'" in s: return "K5-unicode-escape-in-char"
     if re.search(r"0b[01_]{129,}", s): return "K6-long-binary"
+    if "return!" in s: return "K7-return-bang"
     return None
 
 
@@ -48,7 +49,7 @@ def random_token(rng):
     if k < 0.45:
         name = rng.choice(["x", "foo", "a1", "_a", "returns", "iff", "__", "word9", "u7", "Fn"]); return name, ("Identifier", "0", "-")
     if k < 0.5:
-        return rng.choice(["foo!", "print!", "x1!"]), ("Builtin", "0", "-")
+        return rng.choice(["foo!", "print!", "x1!", "returns!", "return!"] if rng.random() < 0.5 else ["foo!", "print!"]), ("Builtin", "0", "-")
     if k < 0.6:
         v = rng.choice([0, 1, 7, 255, 65536, 2 ** 64, 2 ** 127, 2 ** 128 - 1, rng.getrandbits(rng.randint(1, 128))])
         s = str(v)
@@ -150,6 +151,7 @@ def run(tier):
         f = impl.get("q%d" % i, ["missing", "missing"])
         if len(f) < 2: continue
         for gen, line in (("first", f[0]), ("second", f[1])):
+            if gen == "second" and known_class(text) == "K7-return-bang": continue   # reported above as a listed divergence
             got = kinds(line, True)
             gk = [(k[0], k[1], k[2]) for k in got]
             exp = [("Return", "0", "-") if (gen == "second" and False) else e for e in expected]
